@@ -265,7 +265,11 @@ def Hash.insertEntry (h : Hash) (name : Name) : Hash :=
     { h with real := real, virt := aset h.virt v md, vnames := aset h.vnames v ns }
   else { h with real := real }
 
-/-- `pruneTables(entry)` for the entry stored under `name` -/
+/-- `pruneTables(entry)` for the entry stored under `name`: delete the real entry if it has no
+    next hops and no strategy; then, for `len(name) >= m`, (1) if the virtual entry exists and
+    the name is recorded for it, unrecord it (dropping the name set when it becomes empty);
+    (2) if the virtual entry exists and `len(name) == md`: delete the virtual entry when its name
+    set is gone, otherwise recompute `md` as the longest recorded name. -/
 def Hash.prune (h : Hash) (name : Name) : Hash :=
   match afind h.real name with
   | none => h
@@ -274,17 +278,21 @@ def Hash.prune (h : Hash) (name : Name) : Hash :=
       let real := aerase h.real name
       if name.length ≥ h.m then
         let v := name.take h.m
-        match afind h.virt v, afind h.vnames v with
-        | some md, some ns =>
-          if ns.contains name then
-            let ns' := ns.filter (fun x => !(decide (x = name)))
-            if ns'.isEmpty then
-              { h with real := real, virt := aerase h.virt v, vnames := aerase h.vnames v }
-            else if name.length = md then
-              { h with real := real, virt := aset h.virt v (maxLen ns'), vnames := aset h.vnames v ns' }
-            else { h with real := real, vnames := aset h.vnames v ns' }
-          else { h with real := real }
-        | _, _ => { h with real := real }
+        match afind h.virt v with
+        | none => { h with real := real }
+        | some md =>
+          let vn1 := match afind h.vnames v with
+            | some ns =>
+              if ns.contains name then
+                let ns' := ns.filter (fun x => !(decide (x = name)))
+                if ns'.isEmpty then aerase h.vnames v else aset h.vnames v ns'
+              else h.vnames
+            | none => h.vnames
+          if name.length = md then
+            match afind vn1 v with
+            | none => { h with real := real, virt := aerase h.virt v, vnames := vn1 }
+            | some ns => { h with real := real, virt := aset h.virt v (maxLen ns), vnames := vn1 }
+          else { h with real := real, vnames := vn1 }
       else { h with real := real }
     else h
 
